@@ -12,7 +12,10 @@ INVARIANTS = ["TypeOK", "Refines", "RowIndep", "TermsRefine", "Layout", "Untouch
 TIERS = {
     # constants of MC_HFModel per tier; emit = fraction of specifications printed for replay
     "quick": dict(MaxPlace=2, MaxChan=2, MaxSamp=2, BinChoices={1, 2}, NPts=2, Settings={1, 2, 3, 4}, Overrides={0, 2}, EmitMod=12),
-    "thorough": dict(MaxPlace=3, MaxChan=2, MaxSamp=2, BinChoices={1, 2}, NPts=3, Settings={1, 2, 3, 4, 5, 6}, Overrides={0, 1, 2}, EmitMod=30),
+    # thorough = two exhaustive runs (one run with everything at once exhausts the JVM heap): deeper specifications with the core
+    # settings, and every setting / override / point on the quick shape bound
+    "thorough": dict(MaxPlace=3, MaxChan=2, MaxSamp=2, BinChoices={1, 2}, NPts=2, Settings={1, 2, 4}, Overrides={0}, EmitMod=30),
+    "thorough_wide": dict(MaxPlace=2, MaxChan=2, MaxSamp=2, BinChoices={1, 2}, NPts=3, Settings={1, 2, 3, 4, 5, 6}, Overrides={0, 1, 2}, EmitMod=12),
 }
 
 WHAT = {
@@ -28,8 +31,9 @@ def tlc_run(tier, res_index):
     mod = c.pop("EmitMod")
     consts = dict(c, EmitCases=True, EmitMod=mod, EmitRes=res_index % mod)
     cfg = tlc.make_cfg(consts, invariants=INVARIANTS)
-    res = tlc.run("MC_HFModel", cfg, workers=16, timeout=7200, coverage=(tier == "thorough"))
-    if tier == "thorough":
+    res = tlc.run("MC_HFModel", cfg, workers=16, timeout=7200, coverage=tier.startswith("thorough"),
+                  jvm_opts=("-Xmx26g",) if tier.startswith("thorough") else ())
+    if tier.startswith("thorough"):
         tlc.require_actions(res, ["AddMod", "Build", "Eval"], "MC_HFModel")
     return res
 
@@ -90,6 +94,12 @@ def run(prop: str, tier: str) -> int:
     if not res.cases_path:
         raise Machinery("MC_HFModel printed no cases")
     lines = open(res.cases_path).read().splitlines()
+    wide = None
+    if tier == "thorough":
+        wide = tlc_run("thorough_wide", sd)
+        if not wide.ok:
+            raise Machinery("MC_HFModel (all settings and overrides): the specification's own invariants fail:\n" + wide.tail[-3000:])
+        lines += open(wide.cases_path).read().splitlines()
     sim = tlc_sim(tier, sd)
     if not sim.ok and sim.errors:
         raise Machinery("MC_HFModel (simulation beyond the exhaustive bound): invariant fails:\n" + sim.tail[-3000:])
@@ -144,7 +154,7 @@ def run(prop: str, tier: str) -> int:
         v.sample({"spec": c["spec"], "setting": c["setting"], "theta": c["theta"], "chan_rates": c["chan_rates"],
                   "terms": c["terms"] if prop == "C02" else "...", "impl_layout": c["impl"]})
     v.coverage.update(
-        states=res.distinct, transitions=res.generated, depth=res.depth, tlc_cached=res.cached, tlc_wall_s=round(res.wall, 1),
+        states=res.distinct + (wide.distinct if wide else 0), transitions=res.generated + (wide.generated if wide else 0), depth=res.depth, tlc_cached=res.cached, tlc_wall_s=round(res.wall + (wide.wall if wide else 0), 1),
         tlc_invariants=INVARIANTS, tlc_constants={k: (sorted(x) if isinstance(x, set) else x) for k, x in TIERS[tier].items()},
         traces_validated_against_impl=total, cases_emitted=len(lines), simulated_large_spec_cases=len(sim_lines), simulated_states=sim.generated, replayed_per_backend=per_backend,
         spec_setting_groups=specs, evaluations=total, distinct_nontrivial=nontriv,
